@@ -183,3 +183,49 @@ Qed.
 (* whatever order the map behind sel.LabelRestrictions() is ranged in, the selector is classified the same way *)
 Theorem classify_order_free : forall a R', Permutation (restrictions a) R' -> classify_restr R' = classify a.
 Proof. intros. apply classify_restr_perm; auto. apply restrictions_nodup. Qed.
+
+(* ---- AndNode / OrNode range over Go maps too: one merge step is order-free as a map *)
+Definition and_comb (base r : restr) : restr :=
+  {| r_present := r_present base || r_present r;
+     r_absent := r_absent base || r_absent r;
+     r_vals := match r_vals base with
+               | None => r_vals r
+               | Some a => match r_vals r with None => Some a | Some b => Some (inter_vals a b) end
+               end |}.
+
+Lemma and_merge_lookup : forall op lr k, NoDup (map fst op) ->
+  blookup k (and_merge lr op) =
+  match blookup k op with
+  | Some r => Some (and_comb (odflt r_zero (blookup k lr)) r)
+  | None => blookup k lr
+  end.
+Proof.
+  unfold and_merge. induction op as [|[ln r] op IH]; intros lr k HN; simpl; auto.
+  inversion HN; subst. rewrite IH; auto. unfold and_entry. rewrite !blookup_bupd.
+  destruct (bytes_eqb k ln) eqn:E.
+  - apply bytes_eqb_eq in E. subst k.
+    destruct (blookup ln op) as [r'|] eqn:El; auto.
+    exfalso. apply H1. apply blookup_In in El. apply (in_map fst) in El. auto.
+  - reflexivity.
+Qed.
+
+(* `for ln, r := range opLR` in AndNode.LabelRestrictions: any order of the operand's map gives the same map *)
+Theorem and_merge_order_free : forall lr op op' k,
+  NoDup (map fst op) -> Permutation op op' -> blookup k (and_merge lr op') = blookup k (and_merge lr op).
+Proof.
+  intros lr op op' k HN HP.
+  assert (HN' : NoDup (map fst op')) by (eapply Permutation_NoDup; [apply Permutation_map; eauto|auto]).
+  rewrite !and_merge_lookup; auto. rewrite (blookup_perm _ op op' k HP HN). reflexivity.
+Qed.
+
+(* `for ln, r := range lr` in OrNode.LabelRestrictions: the accumulated map may be ranged in any order, and the
+   operand's map is only looked up by key *)
+Theorem or_merge_order_free : forall lr lr' op op',
+  Permutation lr lr' -> NoDup (map fst op) -> Permutation op op' ->
+  Permutation (or_merge lr op) (or_merge lr' op').
+Proof.
+  intros lr lr' op op' HP HN HPo. unfold or_merge.
+  assert (E : forall e, or_entry op' e = or_entry op e).
+  { intros [ln r]. unfold or_entry. rewrite (blookup_perm _ op op' ln HPo HN). reflexivity. }
+  rewrite (flat_map_ext _ _ E). apply Permutation_flat_map. auto.
+Qed.
